@@ -30,6 +30,31 @@ pub fn int(i: i64) -> String {
     }
 }
 
+/// cvc5 1.0 mis-evaluates intersections with a complemented character class, e.g. it answers false for
+/// (str.in_re "d" (re.inter (re.comp (re.range "a" "b")) (re.range "a" "z"))) and for re.diff of two ranges
+/// (z3 answers true, as the definition demands). Expressions that contain both a complement and an intersection
+/// are therefore kept out of the cvc5 cross-check.
+pub fn cvc5_safe(r: &Ref) -> bool {
+    fn has(r: &Ref, not: &mut bool, and: &mut bool) {
+        match r {
+            Ref::None | Ref::Eps | Ref::Range(..) => {}
+            Ref::Cat(v) | Ref::Or(v) => v.iter().for_each(|x| has(x, not, and)),
+            Ref::And(v) => {
+                *and = true;
+                v.iter().for_each(|x| has(x, not, and))
+            }
+            Ref::Not(x) => {
+                *not = true;
+                has(x, not, and)
+            }
+            Ref::Loop(x, _, _) => has(x, not, and),
+        }
+    }
+    let (mut n, mut a) = (false, false);
+    has(r, &mut n, &mut a);
+    !(n && a)
+}
+
 pub fn re(r: &Ref) -> String {
     fn list(v: &[std::rc::Rc<Ref>], op: &str, empty: &str) -> String {
         match v.len() {
